@@ -151,3 +151,17 @@ def run(F, R):
             if any(p.bb == rd.bb for p in passed):
                 ok = True
         R.check(ok, "R23.5", "ReaderStream::poll_next:chunk-is-buf[..n]", rs.where(), "slice bound is the poll_read result", "the yielded slice is not bounded by the value poll_read returned")
+
+    R.rule("R23.6", "one decoder, one target type: every serde_json decode in receive_batch_json targets BatchRequest (no side path that decodes a bare Request on "
+                    "a guess about the first byte), and the multipart `operations` part reaches that decoder as the raw bytes of the part (multer Field::bytes), "
+                    "never through a text decoder that would apply a charset, replace invalid sequences or strip a BOM")
+    decs = [c for b in js for c in b.calls() if c.callee and re.search(r"serde_json::(de::)?from_(slice|str|reader)$", c.callee)]
+    other = [c for c in decs if not any("BatchRequest" in g for g in c.generics)]
+    R.check(bool(decs) and not other, "R23.6", "receive_batch_json:every-decode-targets-BatchRequest", js[0].where() if js else "-", "%d decode sites, all BatchRequest" % len(decs),
+            "receive_batch_json also decodes as %s: which decoder runs depends on a guess about the body (e.g. leading whitespace before `[` sends a batch to the "
+            "single-request decoder)" % sorted({g for c in other for g in c.generics})[:2])
+    txt = [c for b in mp for c in b.calls() if c.callee and re.search(r"multer::field::\{impl#\d+\}::(text|text_with_charset)$", c.callee)]
+    byt = [c for b in mp for c in b.calls() if c.callee and re.search(r"multer::field::\{impl#\d+\}::bytes$", c.callee)]
+    R.check(bool(byt) and not txt, "R23.6", "multipart:operations-read-as-bytes", mp[0].where() if mp else "-", "%d Field::bytes reads, no Field::text" % len(byt),
+            "a multipart part is read with Field::text (charset-aware, lossy): the operations document is no longer the bytes the client sent, so it can decode to a "
+            "different request than the same bytes as a JSON body (or be accepted where the JSON body is rejected)")
